@@ -314,10 +314,22 @@ func c12EncObs(fn string, f func() ([]byte, error)) (c12Obs, []byte) {
 		if err != nil {
 			return "", err
 		}
-		out = b
-		return vB(b), nil
+		// an encoded message is a value: other messages are built while this one is held (a sender with a queue)
+		c12Decoy()
+		out = append([]byte{}, b...)
+		return vB(out), nil
 	})
 	return o, out
+}
+
+func c12Decoy() {
+	defer func() { _ = recover() }()
+	ps := data.Points{{Type: "decoy", Key: "k", Value: 1, Text: "held", Origin: "o"}, {Type: "decoy2", Value: -2}}
+	_, _ = ps.ToPb()
+	n := data.NodeEdge{ID: "decoy", Type: "t", Parent: "p", Points: ps, EdgePoints: ps[:1]}
+	_, _ = n.ToPb()
+	ns := data.Nodes{n, n}
+	_, _ = ns.ToPb()
 }
 
 // run the implementation on the case's inputs, fill in the observations, return the val line
